@@ -12,8 +12,8 @@ CLAIMS = {
     "C02": ("shapex", "bounded-exhaustive input enumeration: 72 signature shapes (1-5 arguments of integers, floats, bool, char, String, &str, Option, Vec, slices, tuples, nested containers, Debug-derived struct/enum/tuple struct; free functions and &self / self / &mut self methods; sync to_cache_key and async format! generators), "
                       "every argument tuple of the cartesian product of small adversarial domains called twice on an unlimited cache: executions = tuples = listed keys and every call returns its own tuple", "§7 C02"),
     "C03": ("macx+thrx", "every call sequence (depth 5/6) over 3 keys x 2 functions sharing key strings for all unlimited functions: executions = distinct tuples; plus every schedule (preemption bound 2/3, both rwlock policies) of 2-3 concurrent callers: nothing runs after a storing call returned", "§7 C03"),
-    "C04": ("seqx+macx", "explicit-state BFS over the real cache engines (all three flavours x six policies x limits x ttl x memory), every random victim enumerated; "
-                    "monitor: size <= limit after every operation and exactly the required number of removals per store; the same monitor on the key listing of generated functions", "§7 C04"),
+    "C04": ("seqx+macx+thrx", "explicit-state BFS over the real cache engines (all three flavours x six policies x limits x ttl x memory), every random victim enumerated; "
+                    "monitor: size <= limit after every operation and exactly the required number of removals per store; the same monitor on the key listing of generated functions; plus every schedule (preemption bound 2/3) of two or three concurrent stores: the limit holds once every caller has returned", "§7 C04"),
     "C05": ("seqx+macx", "explicit-state BFS with values of seven owned-heap types and four footprints (one larger than the bound); monitor computes footprints with its own rule and "
                     "demands total <= max_memory, oversized values displace nothing, removals are explained by memory pressure or the entry limit; L1 functions with max_memory", "§7 C05"),
     "C06": ("seqx+macx", "explicit-state BFS under a frozen virtual clock with 1 s (sync) / 0.5 s (async) ticks, ages hit T-1, T, T+1 exactly; monitor: expired entries are never served and are purged, "
